@@ -458,6 +458,11 @@ theorem step_held [Std.Associative cfg.op] [Std.Commutative cfg.op] (s s' : St V
     · cases h
       simp only [held_mk, stackHeld, emitOf, recvOf, omerge_none_right, frameHeld, phaseHeld, omerge_none_left]
     · cases h
+  | bar =>
+    simp only [step] at h
+    split at h
+    · cases h; simp only [emitOf, recvOf]
+    · cases h
 
 theorem step_wf (s s' : St V) (l : Label V) (hwf : WF cfg.nslots s.cache)
     (h : step cfg s l = some s') : WF cfg.nslots s'.cache := by
@@ -510,6 +515,11 @@ theorem step_wf (s s' : St V) (l : Label V) (hwf : WF cfg.nslots s.cache)
       cases h; exact hh
     · cases h
   | fe =>
+    simp only [step] at h
+    split at h
+    · cases h; exact hwf
+    · cases h
+  | bar =>
     simp only [step] at h
     split at h
     · cases h; exact hwf
@@ -732,6 +742,11 @@ theorem step_inRange (hn : 0 < cfg.nslots) (s s' : St V) (l : Label V) (hr : InR
     split at h
     · cases h; exact hr
     · cases h
+  | bar =>
+    simp only [step] at h
+    split at h
+    · cases h; exact hr
+    · cases h
 
 end Flag
 
@@ -935,6 +950,11 @@ theorem step_flag (s s' : St V) (l : Label V) (hr : InRange cfg.nslots s.cache)
           exact ⟨[], Tails.nil, Or.inl ⟨h5c, h4 rfl⟩⟩
         | inr h5 => obtain ⟨ph', ts', hf, _⟩ := h5; cases hf
     · cases h
+  | bar =>
+    simp only [step] at h
+    split at h
+    · cases h; exact hi
+    · cases h
 
 theorem flagInv_init : FlagInv (St.init : St V) := by
   intro _
@@ -1107,7 +1127,7 @@ theorem netStep_wf (n n' : Net V) (l : NetLabel V) (hwf : NetWF nc n) (h : netSt
           cases hp : pending s with
           | none => rw [hp] at h; cases h; exact key r s s' _ hg hs
           | some m => rw [hp] at h; cases h; exact key r s s' _ hg hs
-    | ret | done | fb | fe =>
+    | ret | done | fb | fe | bar =>
       simp only [netStep] at h
       cases hg : n.ranks[r]? with
       | none => rw [hg] at h; cases h
@@ -1194,7 +1214,7 @@ theorem netStep_ledger [Std.Associative nc.op] [Std.Commutative nc.op] (n n' : N
             simp only [omerge_none_right] at this
             simp only [netHeld, userOf, omerge_none_right, flightTot_cons, ← this]
             ac_rfl
-    | ret | done | fb | fe =>
+    | ret | done | fb | fe | bar =>
       simp only [netStep] at h
       cases hg : n.ranks[r]? with
       | none => rw [hg] at h; cases h
